@@ -305,3 +305,51 @@ pub proof fn lemma_exact_empty(s: String, ci: bool, x: Seq<char>)
     assert(h.subrange(0, 0) =~= n);
     assert(occ(n, h, 0, ci));
 }
+
+// all(k): [x] and of(k, 1): [x] mean x when x is not a merged search (why parse_mapping may drop the quantifier there)
+pub proof fn lemma_single_quant(m: Match, x: Expression, ids: Ids, d: DocM)
+    requires
+        m == Match::All || m == Match::Of(1),
+        !(x is BooleanGroup) && !(x is Identifier) && !(x is Matrix),
+        x is Search ==> !is_merged(x->Search_0),
+    ensures
+        sem3(Expression::Match(m, Box::new(x)), ids, d) == sem3(x, ids, d),   // P:C08
+{
+    let e = Expression::Match(m, Box::new(x));
+    assert(match_target(x, ids) == x);
+    if m == Match::Of(1) {
+        lemma_of3_single(sem3(x, ids, d), 1);
+        assert(sem3(e, ids, d) == sem_of_leaf(x, 1, ids, d));
+        assert(sem_of_leaf(x, 1, ids, d) == of3(seq![sem3(x, ids, d)], 1));
+    } else {
+        assert(sem3(e, ids, d) == sem_all_leaf(x, ids, d));
+        assert(sem_all_leaf(x, ids, d) == sem3(x, ids, d));
+    }
+}
+
+// the merged search over an automaton that satisfies the builder's contract
+pub proof fn lemma_ac_search(a: AhoCorasick, m: Vec<MatchType>, ns: Seq<String>, ci: bool, flag: bool)
+    requires ac_of(&a, texts(ns), ci), aligned(m@, ns),
+    ensures
+        forall|x: Seq<char>| #[trigger] search_rel(Search::AhoCorasick(Box::new(a), m, flag), x) == any_ctx(m@, ci, x),
+        search_wf(Search::AhoCorasick(Box::new(a), m, flag)),
+{
+    let k = Search::AhoCorasick(Box::new(a), m, flag);
+    assert forall|x: Seq<char>| #[trigger] search_rel(k, x) == any_ctx(m@, ci, x) by {
+        lemma_ac_any(&a, m@, ns, ci, x);
+        let hits = ac_hits(&a, x);
+        assert(k->AhoCorasick_0 == Box::new(a) && k->AhoCorasick_1 == m);
+        if search_rel(k, x) {
+            let j = choose|j: int| 0 <= j < ac_hits(&*k->AhoCorasick_0, x).len() && ac_accepts(k->AhoCorasick_1@, #[trigger] ac_hits(&*k->AhoCorasick_0, x)[j], x);
+            assert(ac_accepts(m@, hits[j], x));
+        }
+        if exists|j: int| 0 <= j < hits.len() && ac_accepts(m@, #[trigger] hits[j], x) {
+            let j = choose|j: int| 0 <= j < hits.len() && ac_accepts(m@, #[trigger] hits[j], x);
+            assert(ac_accepts(k->AhoCorasick_1@, ac_hits(&*k->AhoCorasick_0, x)[j], x));
+            assert(search_rel(k, x));
+        }
+    }
+    assert forall|v: Seq<char>, j: int| 0 <= j < ac_hits(&a, v).len() implies pid(ac_pattern(#[trigger] ac_hits(&a, v)[j])) < m@.len() by {
+        lemma_ac_any(&a, m@, ns, ci, v);
+    }
+}
